@@ -15,6 +15,14 @@ import torchtt._extras
 import sys
 
 
+def _ilog(n, base):
+    # largest k with base**k <= n in exact integer arithmetic (math.log(243, 3) is 4.999...)
+    k = 0
+    while base**(k+1) <= n:
+        k += 1
+    return k
+
+
 class TT():
 
     # cores : list[tn.tensor]
@@ -1500,9 +1508,9 @@ class TT():
                 if self.__N[i] != self.__M[i]:
                     raise ShapeMismatch(
                         'Only quadratic TTM can be tranformed to QTT.')
-                if self.__N[i] == mode_size**int(math.log(self.N[i], mode_size)):
+                if self.__N[i] == mode_size**_ilog(self.N[i], mode_size):
                     shape_new += [(mode_size, mode_size)] * \
-                        int(math.log(self.__N[i], mode_size))
+                        _ilog(self.__N[i], mode_size)
                 else:
                     raise ShapeMismatch('Reshaping error: check if the dimensions are powers of the desired mode size:\r\ncore size '+str(
                         list(self.cores[i].shape))+' cannot be reshaped.')
@@ -1510,10 +1518,9 @@ class TT():
             result = torchtt._extras.reshape(self, shape_new, eps, rmax)
         else:
             for core in self.cores:
-                if int(math.log(core.shape[1], mode_size)) > 1:
+                if _ilog(core.shape[1], mode_size) > 1:
                     Nnew = [core.shape[0]*mode_size]+[mode_size] * \
-                        (int(
-                            math.log(core.shape[1], mode_size))-2)+[core.shape[2]*mode_size]
+                        (_ilog(core.shape[1], mode_size)-2)+[core.shape[2]*mode_size]
                     try:
                         core = tn.reshape(core, Nnew)
                     except:
